@@ -279,6 +279,14 @@ def _coherence(g, dist, fam, params, rd, discrete, L, viol, stats):
             return
         total = float(dist.prob_mw(_interval(g, L, k_hi)))
         tail = 1 - rd.cdf(k_hi)
+        point_total = sum(ps) if len(pts) == len(ks) else None
+        off = []
+        if point_total is not None and abs(point_total - 1.0) > 1e-9 + tail:
+            # the point probabilities themselves do not sum to one (scipy clips the cumulative sum at 1, so the reported
+            # CDF can hide an excess): label violations that follow from it
+            off = ["point_sum_off_one_below_5pct"] if abs(point_total - 1.0) < 0.05 else ["point_sum_off_one"]
+            if abs(point_total - 1.0) > 1e-6 + tail and abs(total - 1.0) <= 1e-6 + tail:
+                viol("not_normalised", f"point probabilities up to {k_hi} sum to {point_total!r}", ["deficit:below_5pct"] if abs(point_total - 1.0) < 0.05 else [])
         if abs(total - 1.0) > 1e-6 + tail:
             viol("not_normalised", f"probabilities up to {k_hi} sum to {total!r} (reference tail beyond it {tail:.2e})",
                  ["deficit:below_5pct"] if 0 < 1.0 - total < 0.05 else [])
@@ -290,7 +298,7 @@ def _coherence(g, dist, fam, params, rd, discrete, L, viol, stats):
                     pi = float(dist.prob_mw(_interval(g, 0.0, float(b))))
                     sm = sum(p for k, p in zip(pts, ps) if 0 < k <= b)
                     if abs(pi - sm) > 1e-9 + 1e-7 * abs(sm):
-                        viol("interval_vs_point_probability", f"P(0 < M <= {b}) reported as {pi!r}, point probabilities sum to {sm!r}", ["interval_from_zero"])
+                        viol("interval_vs_point_probability", f"P(0 < M <= {b}) reported as {pi!r}, point probabilities sum to {sm!r}", ["interval_from_zero"] + off)
                         break
         # interval probability equals the sum of point probabilities
         if len(pts) == len(ks):
@@ -300,7 +308,7 @@ def _coherence(g, dist, fam, params, rd, discrete, L, viol, stats):
                 pi = float(dist.prob_mw(_interval(g, a, b)))
                 sm = sum(p for k, p in zip(pts, ps) if a < k <= b)
                 if abs(pi - sm) > 1e-9 + 1e-7 * abs(sm):
-                    viol("interval_vs_point_probability", f"P({a} < M <= {b}) reported as {pi!r}, point probabilities sum to {sm!r}")
+                    viol("interval_vs_point_probability", f"P({a} < M <= {b}) reported as {pi!r}, point probabilities sum to {sm!r}", off)
     else:
         n = 4001
         xs = np.linspace(lo, hi, n)
